@@ -87,7 +87,7 @@ func main() {
 		g.session(k, *ops)
 	}
 	if !*nosub && *stressms > 0 {
-		g.subStress(time.Duration(*stressms)*time.Millisecond, 4, 4)
+		g.subStress(time.Duration(*stressms)*time.Millisecond, 8, 8)
 	}
 	if !*nosub {
 		g.subTransplant()
